@@ -165,6 +165,92 @@ def cc(out, sources, extra=(), san=True, lock=None):
     return r.returncode == 0, r.stdout
 
 
+def lib_hash(flags):
+    h = hashlib.sha256(" ".join(flags).encode())
+    for root, _, files in os.walk(os.path.join(REPO, "src")):
+        for f in sorted(files):
+            if f.endswith((".c", ".h")):
+                h.update(f.encode()); h.update(open(os.path.join(root, f), "rb").read())
+    h.update(open(os.path.join(REPO, "config.h"), "rb").read())
+    return h.hexdigest()[:16]
+
+
+def build_lib(flags=None, exclude=(), tag="asan"):
+    """Compile the library objects from the current REPO tree (cached by content hash). Returns (ok, [objects], log)."""
+    flags = list(SAN if flags is None else flags)
+    hsh = lib_hash(flags)
+    d = os.path.join(BUILD, f"lib-{tag}-{hsh}")
+    with Lock("lib-" + tag):
+        if not os.path.exists(os.path.join(d, "ok")):
+            # drop stale caches for this tag
+            for e in os.listdir(BUILD):
+                if e.startswith(f"lib-{tag}-") and e != os.path.basename(d) and os.path.isdir(os.path.join(BUILD, e)):
+                    shutil.rmtree(os.path.join(BUILD, e), ignore_errors=True)
+            os.makedirs(d, exist_ok=True)
+            procs = []
+            for src in LIB_SOURCES:
+                o = os.path.join(d, src[:-2] + ".o")
+                procs.append((src, subprocess.Popen(["gcc"] + flags + CFLAGS_COMMON + ["-fPIC", "-c", f"{REPO}/src/{src}", "-o", o],
+                                                    stdout=subprocess.PIPE, stderr=subprocess.STDOUT, text=True)))
+            log = ""
+            ok = True
+            for src, p in procs:
+                out, _ = p.communicate()
+                if p.returncode != 0:
+                    ok = False
+                    log += f"{src}: {out[-600:]}\n"
+            if not ok:
+                return False, [], log
+            open(os.path.join(d, "ok"), "w").write("ok")
+    objs = [os.path.join(d, s[:-2] + ".o") for s in LIB_SOURCES if s not in exclude]
+    return True, objs, ""
+
+
+def write_case(prop, name, lines, tier, seed, ext="ops"):
+    d = os.path.join(OUT, prop)
+    os.makedirs(d, exist_ok=True)
+    p = os.path.join(d, f"case-{tier}-{seed}-{name}.{ext}")
+    open(p, "w").write("\n".join(lines) + "\n")
+    return p
+
+
+def shrink(lines, pred, keep_head=1, budget=150):
+    """delta-debugging on lines (the first keep_head lines are kept); pred(lines) true = still failing"""
+    cur = list(lines)
+    n = 2
+    tries = 0
+    while len(cur) > keep_head + 1 and tries < budget:
+        chunk = max(1, (len(cur) - keep_head) // n)
+        removed = False
+        i = keep_head
+        while i < len(cur) and tries < budget:
+            cand = cur[:i] + cur[i + chunk:]
+            tries += 1
+            if len(cand) > keep_head and pred(cand):
+                cur = cand
+                removed = True
+            else:
+                i += chunk
+        if not removed:
+            if chunk == 1:
+                break
+            n = min(len(cur), n * 2)
+    return cur
+
+
+def run_cmd(cmd, text, timeout=300):
+    try:
+        return subprocess.run(cmd, input=text, stdout=subprocess.PIPE, stderr=subprocess.PIPE, text=True, timeout=timeout)
+    except subprocess.TimeoutExpired as e:
+        class R: pass
+        r = R(); r.stdout = (e.stdout or b"").decode() if isinstance(e.stdout, bytes) else (e.stdout or ""); r.stderr = "TIMEOUT"; r.returncode = -9
+        return r
+
+
+def san_line(stderr):
+    return next((l.strip() for l in stderr.splitlines() if "ERROR: AddressSanitizer" in l or "runtime error" in l or "ERROR: LeakSanitizer" in l), "")
+
+
 # ---------------------------------------------------------------- known findings
 def known_findings(prop):
     p = os.path.join(VERIF, "known_findings.json")
